@@ -334,11 +334,6 @@ theorem served_job_at_most_one_datagram (d i h burst : Bool) (cs : List Call) :
 
 /-! ## the worker's TX burst: finished replies do not wait out a resolution -/
 
-theorem worker_run_append (w : Worker) (xs ys : List WEv) : w.run (xs ++ ys) = (w.run xs).run ys := by
-  induction xs generalizing w with
-  | nil => rfl
-  | cons x xs ih => simp only [List.cons_append, Worker.run]; exact ih _
-
 /-- **No staged reply is held across a slow path**, and **every reply leaves
 exactly once, in order**: for every sequence of fast-path replies, slow-path
 requests and idle moments of a worker, no reply is still staged while a later
